@@ -150,8 +150,8 @@ func init() {
 	})
 	addProp(&propDef{
 		ID: "C15", Check: "values", Level: "exploration",
-		Stages: []stage{{Name: "values", Build: "plain"}, {Name: "lang", Build: "plain", Check: "lang"}},
-		Rule:        vrule + "; judged: the SetByUser flag read inside the Action is true iff the command line supplied at least one value; second stage: on every accepted (spec, argv) pair of C01's concrete space (custom value types, five containers per application, and on both levels of a depth-1 command tree in the values stage) the SetByUser flag of every container is true iff the reference binds at least one command-line token to it",
+		Stages: []stage{{Name: "values", Build: "plain"}, {Name: "lang", Build: "plain", Check: "lang"}, {Name: "env", Build: "plain", Check: "env"}},
+		Rule:        vrule + "; judged: the SetByUser flag read inside the Action is true iff the command line supplied at least one value; second stage: on every accepted (spec, argv) pair of C01's concrete space (custom value types, five containers per application, and on both levels of a depth-1 command tree in the values stage) the SetByUser flag of every container is true iff the reference binds at least one command-line token to it; third stage: the (spec, argv, environment subset) space of C12 - an option whose value came from the environment only is never reported as set by the user, a written one always is",
 		Assumptions: []string{"same product as C06", "second stage: bound tokens per container from the reference semantics of DESIGN.md section 4"},
 		Budget:      [2]int{1200, 7200},
 	})
